@@ -292,6 +292,16 @@ class Run:
         self.quiet = q
         self.emit({"e": "sendsignal", "stage": stage_ref, "pers": persistent, "s": self.proj.state()})
 
+    def send_cancel_region(self, region: str) -> None:
+        from stabilize.queue.messages import CancelRegion
+
+        q = self.quiet
+        self.quiet = True
+        with self.store.transaction(self.queue) as txn:
+            txn.push_message(CancelRegion(execution_type="PIPELINE", execution_id=self.wf_id, region=region))
+        self.quiet = q
+        self.emit({"e": "sendregion", "region": region, "s": self.proj.state()})
+
     def pause(self) -> None:
         q = self.quiet
         self.quiet = True
